@@ -883,7 +883,17 @@ fn setup_sql(case: &Case) -> Vec<String> {
 // -------------------------------------------------------------------------------------------
 // oracle
 
-pub const CPU_BUDGET_MS: u64 = 5000;
+/// CPU budget of the main thread per phase (setup, wild + probe). Statements with scalar
+/// subqueries legitimately need 20-50 ms here and 20x that on an overloaded machine.
+pub const CPU_BUDGET_MS: u64 = 20_000;
+
+fn cpu_ms() -> u64 {
+    let mut ts = libc::timespec { tv_sec: 0, tv_nsec: 0 };
+    unsafe {
+        libc::clock_gettime(libc::CLOCK_PROCESS_CPUTIME_ID, &mut ts);
+    }
+    ts.tv_sec as u64 * 1000 + ts.tv_nsec as u64 / 1_000_000
+}
 
 /// function-like words of a statement (part of hang signatures), at most three, sorted
 fn sql_functions(sql: &str) -> String {
@@ -1473,13 +1483,13 @@ impl Check for C24 {
             "statements go through vcore::engine::exec_stmt (the dispatcher mirrored from the repo's CLI/server/sqllogictest adapters) on the worker's main thread (8 MiB stack)".into(),
             "exactness model reads the stored integer values through the storage API (Table::scan), not through the executor under test".into(),
             "clock-dependent functions (CURRENT_DATE/TIME/TIMESTAMP, NOW, CURTIME) are not generated: the oracle must be a pure function of the case".into(),
-            "watchdog: 5 s of CPU time per case inside the worker (ITIMER_PROF => hang.cpu.*), plus vcore's wall-clock watchdog (30 s, confirmed twice with 60 s => hang)".into(),
+            "watchdog: 20 s of main-thread CPU time per phase inside the worker (ITIMER_PROF + thread CPU clock => hang.cpu.*; independent of machine load), plus vcore's wall-clock watchdog (120 s, confirmed twice with 240 s => hang)".into(),
         ]
     }
     fn cases(&self, tier: Tier) -> u64 {
         match tier {
             Tier::Quick => 40_000,
-            Tier::Thorough => 2_000_000,
+            Tier::Thorough => 800_000, // ~7 min on 14 workers, plus <= 10 min libFuzzer (prepare)
         }
     }
     fn tape_len(&self, _t: Tier) -> usize {
@@ -1489,7 +1499,7 @@ impl Check for C24 {
         true
     }
     fn timeout_s(&self) -> u64 {
-        30
+        120
     }
     fn floors(&self) -> Vec<(&'static str, f64)> {
         vec![("reached_execution", 0.5), ("has_extreme_or_type_error", 0.4), ("exact:checked", 0.03)]
@@ -1514,13 +1524,22 @@ impl Check for C24 {
         s
     }
     fn run(&self, case: &Case, obs: &mut Obs) -> Verdict {
+        let t0 = cpu_ms();
+        let m0 = segv::main_thread_cpu_ms();
+        let w0 = std::time::Instant::now();
         let v = self.run_case(case, obs);
-        // dev aid: VERIF_LOG_FAILS=<file> appends every failure (signature + case) seen by a worker
-        if let (Verdict::Fail { sig, .. }, Ok(f)) = (&v, std::env::var("VERIF_LOG_FAILS")) {
+        let used = cpu_ms().saturating_sub(t0);
+        let used_main = segv::main_thread_cpu_ms().saturating_sub(m0);
+        if used > 1000 && segv::installed() {
+            // information for the watchdog budget: which statements are slow without hanging
+            let root = std::env::var("VERIF_ROOT").unwrap_or_else(|_| "/verif".into());
             use std::io::Write;
-            if let Ok(mut fh) = std::fs::OpenOptions::new().create(true).append(true).open(f) {
-                let _ = writeln!(fh, "{}\t{}", sig, serde_json::to_string(case).unwrap_or_default());
+            if let Ok(mut fh) = std::fs::OpenOptions::new().create(true).append(true).open(std::path::Path::new(&root).join("evidence").join("C24.slow.log")) {
+                let _ = writeln!(fh, "{} ms cpu (main thread {} ms, wall {} ms)\t{}", used, used_main, w0.elapsed().as_millis(), vcore::runner::truncate(&case.wild.sql(), 4000));
             }
+        }
+        if segv::installed() {
+            crate::log_unknown_failure("C24", &v, case);
         }
         v
     }
